@@ -1732,18 +1732,7 @@ struct const_subarray : array_types<T, D, ElementPtr, Layout> {
 			>
 		>(std::forward<UF>(fun));
 	}
-	template<class UF>
-	constexpr auto element_transformed(UF&& fun)  & {
-		return static_array_cast_<
-			std::decay_t<std::invoke_result_t<UF const&, element_ref >>,
-			transform_ptr<
-				std::decay_t<std::invoke_result_t<UF const&, element_ref >>,
-				UF, element_ptr      , std::invoke_result_t<UF const&, element_ref >
-			>
-		>(std::forward<UF>(fun));
-	}
-	template<class UF>
-	constexpr auto element_transformed(UF&& fun) && {return element_transformed(std::forward<UF>(fun));}
+	// the overloads for non-const objects are in subarray: a const_subarray is read-only whatever its own qualification
 
 	template<
 		class T2, class P2 = typename std::pointer_traits<typename const_subarray::element_ptr>::template rebind<T2 const>,
@@ -1757,29 +1746,6 @@ struct const_subarray : array_types<T, D, ElementPtr, Layout> {
 		);
 
 		return subarray<T2, D, P2>{this->layout().scale(sizeof(T), sizeof(T2)), static_cast<P2>(&(this->base_->*member))};
-	}
-
-	template<
-		class T2, class P2 = typename std::pointer_traits<typename const_subarray::element_ptr>::template rebind<T2>,
-		class Element = typename const_subarray::element,
-		class PM = T2 Element::*
-	>
-	constexpr auto member_cast(PM member) & -> subarray<T2, D, P2> {
-		static_assert(sizeof(T)%sizeof(T2) == 0,
-			"array_member_cast is limited to integral stride values, therefore the element target size must be multiple of the source element size. "
-			"Use custom alignas structures (to the interesting member(s) sizes) or custom pointers to allow reintrepreation of array elements"
-		);
-
-		return subarray<T2, D, P2>{this->layout().scale(sizeof(T), sizeof(T2)), static_cast<P2>(&(this->base_->*member))};
-	}
-
-	template<
-		class T2, class P2 = typename std::pointer_traits<typename const_subarray::element_ptr>::template rebind<T2>,
-		class Element = typename const_subarray::element,
-		class PM = T2 Element::*
-	>
-	constexpr auto member_cast(PM member) && -> subarray<T2, D, P2> {
-		return this->member_cast<T2, P2, Element, PM>(member);
 	}
 
 	template<class T2, class P2 = typename std::pointer_traits<typename const_subarray::element_ptr>::template rebind<T2>>
@@ -2338,6 +2304,50 @@ class subarray : public const_subarray<T, D, ElementPtr, Layout> {
 
 	constexpr auto element_moved()  & { return subarray<T, D, typename subarray::element_move_ptr, Layout>(this->layout(), element_move_ptr{this->base_}); }
 	constexpr auto element_moved() && { return element_moved(); }
+
+	// (no using-declaration: const_subarray<T, 0> has neither element_transformed nor member_cast)
+	template<class UF>
+	constexpr auto element_transformed(UF&& fun) const& {return static_cast<const_subarray<T, D, ElementPtr, Layout> const&>(*this).element_transformed(std::forward<UF>(fun));}
+	template<class UF>
+	constexpr auto element_transformed(UF&& fun) & {
+		using ref_t = std::invoke_result_t<UF const&, typename subarray::element_ref>;
+		using ptr_t = transform_ptr<std::decay_t<ref_t>, UF, typename subarray::element_ptr, ref_t>;
+		return subarray<std::decay_t<ref_t>, D, ptr_t>(this->layout(), ptr_t{this->base_, std::forward<UF>(fun)});
+	}
+	template<class UF>
+	constexpr auto element_transformed(UF&& fun) && {return element_transformed(std::forward<UF>(fun));}
+
+	template<
+		class T2, class P2 = typename std::pointer_traits<typename subarray::element_ptr>::template rebind<T2 const>,
+		class Element = typename subarray::element,
+		class PM = T2 std::decay_t<Element>::*
+	>
+	constexpr auto member_cast(PM member) const& -> subarray<T2, D, P2> {
+		return static_cast<const_subarray<T, D, ElementPtr, Layout> const&>(*this).template member_cast<T2, P2, Element, PM>(member);
+	}
+
+	template<
+		class T2, class P2 = typename std::pointer_traits<typename subarray::element_ptr>::template rebind<T2>,
+		class Element = typename subarray::element,
+		class PM = T2 std::decay_t<Element>::*
+	>
+	constexpr auto member_cast(PM member) & -> subarray<T2, D, P2> {
+		static_assert(sizeof(T)%sizeof(T2) == 0,
+			"array_member_cast is limited to integral stride values, therefore the element target size must be multiple of the source element size. "
+			"Use custom alignas structures (to the interesting member(s) sizes) or custom pointers to allow reintrepreation of array elements"
+		);
+
+		return subarray<T2, D, P2>{this->layout().scale(sizeof(T), sizeof(T2)), static_cast<P2>(&(this->base_->*member))};
+	}
+
+	template<
+		class T2, class P2 = typename std::pointer_traits<typename subarray::element_ptr>::template rebind<T2>,
+		class Element = typename subarray::element,
+		class PM = T2 std::decay_t<Element>::*
+	>
+	constexpr auto member_cast(PM member) && -> subarray<T2, D, P2> {
+		return this->member_cast<T2, P2, Element, PM>(member);
+	}
 
 	template<class Archive>
 	auto serialize(Archive& arxiv, unsigned int /*version*/) {
@@ -3246,21 +3256,10 @@ struct const_subarray<T, 1, ElementPtr, Layout>  // NOLINT(fuchsia-multiple-inhe
 			>
 		>(std::forward<UF>(fun));
 	}
-	template<class UF>
-	constexpr auto element_transformed(UF&& fun)  & {
-		return static_array_cast<
-			std::decay_t<std::invoke_result_t<UF const&, element_ref >>,
-			transform_ptr<
-				std::decay_t<std::invoke_result_t<UF const&, element_ref >>,
-				UF, element_ptr      , std::invoke_result_t<UF const&, element_ref >
-			>
-		>(std::forward<UF>(fun));
-	}
-	template<class UF>
-	constexpr auto element_transformed(UF&& fun) && {return element_transformed(std::forward<UF>(fun));}
+	// the overloads for non-const objects are in subarray
 
 	template<
-		class T2, class P2 = typename std::pointer_traits<element_ptr>::template rebind<T2>,
+		class T2, class P2 = typename std::pointer_traits<element_ptr>::template rebind<T2 const>,  // read-only, like the const& overload for D > 1; the mutable overloads are in subarray
 		class Element = typename const_subarray::element,
 		class PM = T2 std::decay_t<Element>::*
 	>
@@ -3274,7 +3273,7 @@ struct const_subarray<T, 1, ElementPtr, Layout>  // NOLINT(fuchsia-multiple-inhe
 		// NOLINTNEXTLINE(cppcoreguidelines-pro-type-reinterpret-cast) reinterpret is what the function does. alternative for GCC/NVCC
 		auto&& r1 = (*(reinterpret_cast<typename const_subarray::element_type* const&>(const_subarray::base_))).*member;  // ->*pm;
 		// NOLINTNEXTLINE(cppcoreguidelines-pro-type-reinterpret-cast) TODO(correaa) find a better way
-		auto* p1 = &r1; P2 p2 = reinterpret_cast<P2&>(p1);  //NOSONAR
+		typename std::pointer_traits<P2>::element_type* p1 = &r1; P2 p2 = reinterpret_cast<P2&>(p1);  //NOSONAR
 #else
 		auto p2 = static_cast<P2>(&(this->base_->*member));  // this crashes nvcc 11.2-11.4 and some? gcc compiler
 #endif
